@@ -382,6 +382,25 @@ def evaluate(case):
         else:
             _cmp("routes.treearray", tref, got, out, what)
 
+    # the array filled from TWO sources with a tree offset: the offset applies to each source (single-collection documents)
+    # (not for NeXML: two NeXML sources read into one namespace never share taxa -- the recorded finding C13-nexml-shared-namespace)
+    if ref[0] == "ok" and len(sizes) == 1 and total >= 2 and schema != "nexml":
+        def ta_two_ref():
+            ns = TaxonNamespace()
+            ta = TreeArray(taxon_namespace=ns)
+            for _ in range(2):
+                for t in TreeList.get(data=text, schema=schema, taxon_namespace=ns, tree_offset=1, **kw)._trees:
+                    ta.add_tree(t)
+            return ta_dump(ta)
+
+        def ta_two():
+            ns = TaxonNamespace()
+            ta = TreeArray(taxon_namespace=ns)
+            ta.read_from_files([SIO(), SIO()], schema, tree_offset=1, **kw)
+            return ta_dump(ta)
+
+        _cmp("routes.treearray", _call(ta_two_ref), run(ta_two), out, "TreeArray.read_from_files([source, source], tree_offset=1)")
+
     # data set
     def ds_get():
         ds = DataSet.get(data=text, schema=schema, **kw)
@@ -602,7 +621,59 @@ def matrix_cases():
     return cases
 
 
+NEXML_ANNOTATED = """<?xml version="1.0" encoding="ISO-8859-1"?>
+<nex:nexml version="0.9" xmlns:m="%(m)s" xmlns:dt="%(dt)s" xmlns="http://www.nexml.org/2009"
+    xmlns:xsi="http://www.w3.org/2001/XMLSchema-instance" xmlns:xml="http://www.w3.org/XML/1998/namespace" xmlns:nex="http://www.nexml.org/2009">
+    <otus id="o0"><otu id="o1" label="a" /><otu id="o2" label="b" /><otu id="o3" label="c" /></otus>
+    <trees id="ts" otus="o0">
+        <tree id="t0" label="%(label)s" xsi:type="nex:FloatTree">
+            <meta xsi:type="nex:LiteralMeta" property="m:score" content="%(score)s" datatype="dt:double" id="m0" />
+            <node id="n0" root="true" /><node id="n1" /><node id="n2" otu="o1" /><node id="n3" otu="o2" />
+            <node id="n4" otu="o3"><meta xsi:type="nex:LiteralMeta" property="m:support" content="7" datatype="dt:integer" id="m1" /></node>
+            <rootedge id="e0" target="n0" />
+            <edge id="e1" source="n0" target="n1" length="%(len)s" /><edge id="e2" source="n1" target="n2" length="1.0" />
+            <edge id="e3" source="n1" target="n3" length="1.0" /><edge id="e4" source="n0" target="n4" length="2.0" />
+        </tree>
+    </trees>
+</nex:nexml>
+"""
+
+
+def nexml_pair_case():
+    """two NeXML documents that bind the same prefixes to DIFFERENT namespaces (metadata vocabulary, datatype vocabulary): the tree iterator over
+    both delivers what reading each on its own delivers"""
+    d1 = NEXML_ANNOTATED % dict(m="http://example.org/one#", dt="http://example.org/other-types#", label="t1", score="1.5", len="1.0")
+    d2 = NEXML_ANNOTATED % dict(m="http://example.org/two#", dt="http://www.w3.org/2001/XMLSchema#", label="t2", score="2.5", len="3.0")
+    return dict(kind="nexml-pair", schema="nexml", name="nexml:two-documents-other-prefix-bindings", docs=[d1, d2], sizes=[1, 1], opts={})
+
+
+def _annots_ns(t):
+    out = []
+    for item in [t] + list(t.preorder_node_iter()):
+        for a in item.annotations:
+            out.append([str(a.name_prefix), str(a.namespace), str(a.name), repr(a.value)])
+    return sorted(out)
+
+
+def evaluate_nexml_pair(case):
+    out = []
+    docs = case["docs"]
+
+    def one(text):
+        tl = TreeList.get(data=text, schema="nexml")
+        return [[T.observe_full(t), _annots_ns(t)] for t in tl._trees]
+
+    for order in ((0, 1), (1, 0)):
+        ref = _call(lambda: one(docs[order[0]]) + one(docs[order[1]]))
+        got = _call(lambda: [[T.observe_full(t), _annots_ns(t)] for t in
+                             Tree.yield_from_files([io.StringIO(docs[order[0]]), io.StringIO(docs[order[1]])], "nexml", taxon_namespace=TaxonNamespace())])
+        _cmp("routes.yield_from_files", ref, got, out, "two documents (order %s) through one iterator vs each document on its own" % (order,))
+    return out, 4
+
+
 def _eval_any(case):
+    if case.get("kind") == "nexml-pair":
+        return evaluate_nexml_pair(case)
     if case.get("kind") == "matrix":
         return evaluate_matrix(case)
     return evaluate(case)
@@ -623,6 +694,7 @@ def t2(ctx):
     for d in docs:
         for o in d["opts_list"]:
             cases.append(dict(kind="trees", schema=d["schema"], name=d["name"], text=d["text"], sizes=d["sizes"], opts=o, attached=bool(d.get("attached"))))
+    cases.append(nexml_pair_case())
     mcases = matrix_cases()
     sc = "routes-agree@corpus"
     ctx.scope(sc, rule="%d documents (Newick: every sequence of <=3 statements over an 8-statement pool%s; NEXUS: 1 TREES block x "
